@@ -10,14 +10,28 @@ declarations of an @page rule are seen at any nesting depth; and `urivalue(uri(u
 without a backslash — quotes, brackets, separators, white space of any kind, control characters and any
 non-ASCII character included.  The two defects of the pinned snapshot are kept as witnesses.
 
+Also proved (second half of the file): the text written by `helper.uri` **is one URI token**.  For every URL
+without backslash, newline, form feed or carriage return (`UrlOK`), in both forms the writer uses (bare
+`url(…)`; quoted `url("…")` with `"` written `\"`), followed by any text whatsoever, one step of the
+tokenizer model on the regenerated production table (outside full-sheet mode) yields exactly one token of
+type URI whose raw text and value are the written text and leaves exactly the text that followed
+(`uri_one_token`); that value, given to `urivalue`, is the URL (`url_single_token_roundtrip`); on its own the
+written text tokenizes to a one-token stream (`uri_tokenize_alone`).  This rests on `gen_uri_layout`, an
+obligation on the regenerated table (shape of the URI production, nothing earlier starts with `u`, the class
+of `{urlchar}`, what `\"` is inside a string, how URI values are un-escaped) discharged by `rfl`/`decide`;
+lemmas in `Proofs/UriToken.lean`.  Both hypotheses of `UrlOK` have kernel-checked counterexamples below.
+
 Tie: `urltrav` (generated trees against getUrls on the real sheets built from them) and `urlrt` (the model's
 helper.uri → tokenizer model → urivalue pipeline against the real one, over a wide character set).
-Partial: that the text written by `helper.uri` is one URI token is covered by the `urlrt` correspondence with
-the tokenizer model (C08/C09), not by a theorem.
+Not covered by a theorem: full-sheet mode (`fullsheet = true`, where an unterminated `url(` is completed);
+URLs with a newline, form feed or carriage return (the model's `cssString` is stated for values without them;
+the real `helper.string` writes `\a `, `\c `, `\d `).
 -/
 import CssVerif.Proofs.Urls
+import CssVerif.Proofs.UriToken
+import CssVerif.Gen.Productions
 namespace CssVerif.C12
-open CssVerif.Urls
+open CssVerif CssVerif.Re CssVerif.Urls
 
 theorem replace_then_get (f : Url → Url) (sheet : List Node) :
     getUrls true (replaceUrls true f false sheet) = (getUrls true sheet).map f ∧
@@ -41,5 +55,139 @@ theorem snapshot_counterexamples :
 /-- non-vacuity: a URL with a quote, a bracket, a space and a non-ASCII character -/
 example : Safe [97, 34, 40, 32, 252] ∧ uriValue (cssUri true [97, 34, 40, 32, 252]) = [97, 34, 40, 32, 252] := by
   refine ⟨by intro c hc; simp at hc; rcases hc with h | h | h | h | h <;> subst h <;> decide, by decide⟩
+
+/-! ## the written text is one URI token -/
+
+/-- obligation on the regenerated table: the URI production is `{U}{R}{L}\({w}({string}|{urlchar}*){w}\)`
+(`uriRe`); no earlier production can start with `u` and `u` is not on the single-character fast path;
+the three letter expressions are `U|u|\…`, `R|r|\…`, `L|l|\…` and accept the lower-case letter; the class
+of `{urlchar}` lies in ASCII, has every ASCII character that `helper.uri` leaves unquoted and does not
+have `)`; in a string, `\"` is not a line continuation (`A`) nor a `\hex` escape (`B1`) but is the
+`\`*other character* escape (`[^…]` with class `rsB`); URI values are un-escaped, and the un-escaping
+expression is `\` followed by something that cannot start with `"`. -/
+theorem gen_uri_layout : ∃ a b c rsU A B1 rsB X,
+    findProd Gen.tables.prods "URI" = some ⟨"URI", none, uriRe a b c rsU A (.alt B1 (.cls true rsB))⟩ ∧
+    earlierCannotStart Gen.tables "URI" 117 = true ∧ Gen.tables.fastChars.contains 117 = false ∧
+    UrlLetters a b c ∧ urlClsOK rsU = true ∧
+    canStart A 34 = false ∧ canStart B1 34 = false ∧ clsMatch true rsB 34 = true ∧
+    Gen.tables.escTypes.contains "URI" = true ∧
+    Gen.tables.unicodesub = .seq (.cls false [(92, 92)]) X ∧ canStart X 34 = false :=
+  ⟨_, _, _, _, _, _, _, _, rfl, by decide, by decide,
+    ⟨by decide, by decide, by decide, by decide, by decide, by decide⟩, by decide,
+    by decide, by decide, by decide, by decide, rfl, by decide⟩
+
+/-- **the text written by `helper.uri` is exactly one URI token.**  For every URL string without
+backslash, newline, form feed or carriage return (`UrlOK`; everything else — quotes, brackets, commas,
+semicolons, white space of any kind, control characters, any non-ASCII character — is allowed), in any
+tokenizer state outside full-sheet mode, followed by *any* text `rest` (no side condition: the token ends
+with `)`, and nothing extends it), one step of the tokenizer on the regenerated table yields one token of
+type URI whose raw text and whose value are the written text, and leaves exactly `rest`.  Both forms of
+the writer are covered: `url(`*chars*`)` when no character forces quotes, `url("`*chars, `"` as `\"`*`")`
+otherwise. -/
+theorem uri_one_token (cfg : Cfg) (hfs : cfg.fullsheet = false) (hdc : cfg.doComments = true) (st : St)
+    (u : Url) (rest : Text) (hu : UrlOK u) (hr : st.rest = cssUri true u ++ rest) :
+    step Gen.tables cfg st =
+      some { emit := some ⟨"URI", cssUri true u, st.line, st.col⟩, raw := cssUri true u,
+             st := advance st (cssUri true u) } := by
+  obtain ⟨a, b, c, rsU, A, B1, rsB, X, hfind, he, hfast, hl, hok, hA, hB1, hB, hesc, hsub, hX⟩ := gen_uri_layout
+  have hm : matchProd ⟨"URI", none, uriRe a b c rsU A (.alt B1 (.cls true rsB))⟩ st.prev
+      (cssUri true u ++ rest) = some rest :=
+    matchProd_some_of_head _ rfl _ _ _ (cssUri_head a b c rsU A B1 rsB hl hok hA hB1 hB u rest hu)
+  obtain ⟨s, hs⟩ : ∃ s, cssUri true u ++ rest = 117 :: s := ⟨(cssUri true u ++ rest).tail, by simp [cssUri]⟩
+  rw [hs] at hm
+  have := step_classify' Gen.tables cfg hfs st 117 s (hr.trans hs) hfast "URI" (by decide) he _ hfind rest hm
+  have hfound : consumed (117 :: s) rest = cssUri true u := by rw [← hs]; simp [consumed]
+  rw [this, hfound]
+  exact congrArg some (finish_uri Gen.tables X hsub hX hesc cfg hfs hdc st _ _ (EscQuote_cssUri u hu.safe))
+
+/-- the state after the token: exactly the continuation is left -/
+theorem uri_one_token_rest (st : St) (u : Url) (rest : Text) (hr : st.rest = cssUri true u ++ rest) :
+    (advance st (cssUri true u)).rest = rest := by
+  simp [advance, hr]
+
+/-- **write, tokenize, read back.**  The text written by `replaceUrls` (through `helper.uri`) for a URL
+`u`, followed by any text, is read by the tokenizer as a single URI token; that token's value, given to
+`helper.urivalue`, is `u` again; and the tokenizer continues exactly at the text that followed. -/
+theorem url_single_token_roundtrip (cfg : Cfg) (hfs : cfg.fullsheet = false) (hdc : cfg.doComments = true)
+    (st : St) (u : Url) (rest : Text) (hu : UrlOK u) (hr : st.rest = cssUri true u ++ rest) :
+    ∃ tok st', step Gen.tables cfg st = some { emit := some tok, raw := cssUri true u, st := st' } ∧
+      tok.typ = "URI" ∧ tok.val = cssUri true u ∧ uriValue tok.val = u ∧ st'.rest = rest :=
+  ⟨_, _, uri_one_token cfg hfs hdc st u rest hu hr, rfl, rfl, url_survives u hu.safe,
+    uri_one_token_rest st u rest hr⟩
+
+/-- the written text on its own is a token stream of length one -/
+theorem uri_tokenize_alone (cfg : Cfg) (hfs : cfg.fullsheet = false) (hdc : cfg.doComments = true)
+    (u : Url) (hu : UrlOK u) :
+    (tokenize Gen.tables cfg (cssUri true u)).toks = [⟨"URI", cssUri true u, 1, 1⟩] ∧
+    (tokenize Gen.tables cfg (cssUri true u)).endKind = .done := by
+  have hbom : exec Gen.tables.bom (cssUri true u) = none := by
+    have : cssUri true u = 117 :: (cssUri true u).tail := by simp [cssUri]
+    rw [this]
+    exact exec_none_of_canStart_false _ 117 _ (by decide)
+  have hcs : hasAt (cssUri true u) charsetLit = false := by
+    simp only [hasAt, cssUri, charsetLit, List.cons_append, List.nil_append]
+    rfl
+  have hstep := uri_one_token cfg hfs hdc ⟨none, cssUri true u, 1, 1⟩ u [] hu (by simp)
+  have hne : ∃ x xs, cssUri true u = x :: xs := ⟨117, (cssUri true u).tail, by simp [cssUri]⟩
+  obtain ⟨x, xs, hx⟩ := hne
+  have hloop : loop Gen.tables cfg ((cssUri true u).length + 1) ⟨none, cssUri true u, 1, 1⟩ =
+      ([(some ⟨"URI", cssUri true u, 1, 1⟩, cssUri true u)],
+        advance ⟨none, cssUri true u, 1, 1⟩ (cssUri true u), .done) := by
+    have hrest : (advance ⟨none, cssUri true u, 1, 1⟩ (cssUri true u)).rest = [] :=
+      uri_one_token_rest _ u [] (by simp)
+    have hl2 : ∀ n, loop Gen.tables cfg n (advance ⟨none, cssUri true u, 1, 1⟩ (cssUri true u)) =
+        ([], advance ⟨none, cssUri true u, 1, 1⟩ (cssUri true u), .done) := by
+      intro n
+      cases n with
+      | zero => simp [loop, hrest]
+      | succ n => simp [loop, hrest]
+    rw [loop]
+    simp only [hx]
+    rw [← hx, hstep]
+    simp only [hl2]
+  simp only [tokenize, prelude, hbom, hcs, Bool.false_eq_true, if_false, hloop, hfs, Result.toks]
+  simp
+
+/-! the hypotheses are needed (kernel-checked on the regenerated table) -/
+
+/-- type and value of the token of one step -/
+def tokOf (r : Option Res) : Option (String × Text) := r.bind (fun r => r.emit.map (fun t => (t.typ, t.val)))
+
+/-- a newline: the model's `helper.string` (stated for values without newline) would leave it inside the
+quotes, and `url("` newline `")` is not a URI token (the real `helper.string` writes `\a `) -/
+example : cssUri true [10] = [117, 114, 108, 40, 34, 10, 34, 41] ∧
+    tokOf (step Gen.tables ⟨false, true⟩ ⟨none, cssUri true [10], 1, 1⟩) = some ("FUNCTION", [117, 114, 108, 40]) := by
+  decide
+/-- a backslash: `url(\a)` is one URI token, but its value is not the written text (`\a` is the escape
+for a newline), and `urivalue` does not return `\a` -/
+example : tokOf (step Gen.tables ⟨false, true⟩ ⟨none, cssUri true [92, 97], 1, 1⟩) =
+    some ("URI", [117, 114, 108, 40, 10, 41]) ∧ uriValue [117, 114, 108, 40, 10, 41] ≠ [92, 97] := by decide
+
+/-! non-vacuity: a bare URL `a/b.png`; a URL with a quote, a bracket, a blank and a non-ASCII character
+(quoted, the quote escaped); the pinned defect example `a\x01b`, now quoted; the empty URL -/
+example : step Gen.tables ⟨false, true⟩ ⟨none, [117, 114, 108, 40, 97, 47, 98, 46, 112, 110, 103, 41, 59, 32], 1, 1⟩ =
+    some { emit := some ⟨"URI", [117, 114, 108, 40, 97, 47, 98, 46, 112, 110, 103, 41], 1, 1⟩,
+           raw := [117, 114, 108, 40, 97, 47, 98, 46, 112, 110, 103, 41],
+           st := advance ⟨none, [117, 114, 108, 40, 97, 47, 98, 46, 112, 110, 103, 41, 59, 32], 1, 1⟩
+             [117, 114, 108, 40, 97, 47, 98, 46, 112, 110, 103, 41] } :=
+  uri_one_token ⟨false, true⟩ rfl rfl _ [97, 47, 98, 46, 112, 110, 103] [59, 32] (by decide) (by decide)
+example : UrlOK [97, 34, 40, 32, 252] ∧
+    cssUri true [97, 34, 40, 32, 252] = [117, 114, 108, 40, 34, 97, 92, 34, 40, 32, 252, 34, 41] ∧
+    step Gen.tables ⟨false, true⟩ ⟨some 58, [117, 114, 108, 40, 34, 97, 92, 34, 40, 32, 252, 34, 41, 41], 3, 7⟩ =
+      some { emit := some ⟨"URI", [117, 114, 108, 40, 34, 97, 92, 34, 40, 32, 252, 34, 41], 3, 7⟩,
+             raw := [117, 114, 108, 40, 34, 97, 92, 34, 40, 32, 252, 34, 41],
+             st := ⟨some 41, [41], 3, 20⟩ } :=
+  ⟨by decide, by decide,
+    uri_one_token ⟨false, true⟩ rfl rfl ⟨some 58, _, 3, 7⟩ [97, 34, 40, 32, 252] [41] (by decide) (by decide)⟩
+example : ∃ tok st', step Gen.tables ⟨false, true⟩ ⟨none, [117, 114, 108, 40, 34, 97, 1, 98, 34, 41], 1, 1⟩ =
+      some { emit := some tok, raw := [117, 114, 108, 40, 34, 97, 1, 98, 34, 41], st := st' } ∧
+    tok.typ = "URI" ∧ tok.val = [117, 114, 108, 40, 34, 97, 1, 98, 34, 41] ∧ uriValue tok.val = [97, 1, 98] ∧
+    st'.rest = [] :=
+  url_single_token_roundtrip ⟨false, true⟩ rfl rfl ⟨none, _, 1, 1⟩ [97, 1, 98] [] (by decide) (by decide)
+example : (tokenize Gen.tables ⟨false, true⟩ [117, 114, 108, 40, 41]).toks = [⟨"URI", [117, 114, 108, 40, 41], 1, 1⟩] :=
+  (uri_tokenize_alone ⟨false, true⟩ rfl rfl [] (by decide)).1
+/-- the text the pinned snapshot wrote for `a\x01b` (bare) is not a URI token -/
+example : tokOf (step Gen.tables ⟨false, true⟩ ⟨none, cssUri false [97, 1, 98], 1, 1⟩) =
+    some ("FUNCTION", [117, 114, 108, 40]) := by decide
 
 end CssVerif.C12
